@@ -86,7 +86,7 @@ func NewWebhookExecutor(
 		if webhook.Etag.CacheTimeoutSeconds != nil {
 			defaultExpiration = time.Second * time.Duration(*webhook.Etag.CacheTimeoutSeconds)
 		}
-		if webhook.Etag.CacheTimeoutSeconds != nil {
+		if webhook.Etag.CacheCleanupSeconds != nil {
 			cleanupInterval = time.Second * time.Duration(*webhook.Etag.CacheCleanupSeconds)
 		}
 		abstract = &webhookExecutorEtag{
